@@ -32,6 +32,105 @@ print(json.dumps(out))
 '''
 
 
+
+def _lattice_prio_case(seed):
+    """dynamic lexers with terminals that may contain the ignored blanks and with rule/terminal priorities: the resolved tree must be one of the derivations of
+    the character lattice (dynamic: longest match per terminal and offset; dynamic_complete: every member prefix) and, without directly empty alternatives,
+    have the optimal total priority"""
+    import re
+    from lark import Lark, Tree, Token
+    from lark.exceptions import UnexpectedInput, LarkError, GrammarError
+    from common import guarded, Timeout
+    import oracle_derivs
+    rng = random.Random(seed)
+    pool = [('A', '/a/'), ('AS', '/a /'), ('B', '/b/'), ('SB', '/ ?b/'), ('AA', '/a+/'), ('C', '"c"')]
+    terms = rng.sample(pool, rng.randint(2, 4))
+    tn = [n for n, _ in terms]
+    nts = ['start'] + ['n%d' % i for i in range(rng.randint(1, 2))]
+    lines = []
+    for nt in nts:
+        alts = []
+        for _ in range(rng.randint(1, 3)):
+            alts.append(' '.join(rng.choice(nts[1:] + tn + tn) for _ in range(rng.choice([1, 2, 2, 3]))))
+        lines.append('%s%s: %s' % (nt, rng.choice(['', '', '.1', '.2', '.-1']) if nt != 'start' else '', ' | '.join(dict.fromkeys(alts))))
+    for n, sp in terms:
+        lines.append('%s%s: %s' % (n, rng.choice(['', '', '.2', '.5']), sp))
+    lines.append('%ignore / +/')
+    g = '\n'.join(lines) + '\n'
+    fam = rng.random() < 0.35
+    if fam:
+        # two ways to read the text before a run of blanks (the token with or without one trailing blank), told apart only by priorities
+        pa, pas = rng.sample(['', '.1', '.3', '.5'], 2)
+        g = rng.choice(['start: x %s\nx: a_ | as_\na_%s: A\nas_%s: AS\nA: /a/\nAS: /a /\n', 'start: x %s\nx: A | AS\nA%s: /a/\nAS%s: /a /\n']) % (rng.choice(['B', 'SB', 'B B']), pa, pas) + 'B: /b/\nSB: / ?b/\n%ignore / +/\n'
+    out = {'grammar': g, 'fails': [], 'checked': 0}
+    lexer = rng.choice(['dynamic', 'dynamic_complete'])
+    try:
+        with guarded(6):
+            base = Lark(g, parser='earley', lexer=lexer, ambiguity='resolve')
+    except (LarkError, GrammarError, Timeout):
+        return out
+    if not oracle_derivs.acyclic(base.rules):
+        return out
+    pats = {t.name: re.compile(t.pattern.to_regexp()) for t in base.terminals}
+    tprio = {t.name: t.priority for t in base.terminals}
+    ign = [pats[n_] for n_ in base.ignore_tokens]
+    for _ in range(3):
+        text = ''.join(rng.choice(['a', 'b', 'c', ' ', '  ', 'a ', ' b', 'aa']) for _ in range(rng.randint(1, 5)))
+        if fam:
+            text = 'a' + ' ' * rng.randint(0, 3) + 'b' + rng.choice(['', ' b', 'b'])
+        n = len(text)
+        step = {i: {j for r in ign for j in range(i + 1, n + 1) if r.fullmatch(text, i, j)} for i in range(n + 1)}
+        skip = {}
+        for i in range(n, -1, -1):
+            acc = {i}
+            for j in step[i]: acc |= skip[j]
+            skip[i] = acc
+        def term_spans(name, i, _c={}):
+            key = (name, i, text)
+            if key not in _c:
+                r = pats[name]; sp = []
+                for ii in sorted(skip[i]):
+                    ends = [jj for jj in range(ii + 1, n + 1) if r.fullmatch(text, ii, jj)]
+                    if lexer == 'dynamic' and ends:
+                        m = r.match(text, ii); ends = [m.end()] if m and m.end() > ii else []      # the regexp's own (preferred = longest, for this pool) match
+                    sp += [(ii, jj) for jj in ends]
+                _c[key] = sp
+            return _c[key]
+        try:
+            with guarded(6):
+                ds = oracle_derivs.derivations_lattice(base.rules, n, term_spans, 'start', lambda j: n in skip[j], limit=150)
+        except (Timeout, RecursionError):
+            ds = None
+        if not ds:
+            continue
+        def canon_d(d):
+            r, ch = d
+            return ['T', str(r.alias or r.origin.name), [canon_d(c) if not isinstance(c[0], str) else ['t', c[0], text[c[1]:c[2]], c[1], c[2]] for c in ch]]
+        def prio_d(d):
+            r, ch = d
+            return (r.options.priority or 0) + sum(prio_d(c) if not isinstance(c[0], str) else tprio.get(c[0], 0) for c in ch)
+        table = {json.dumps(canon_d(d)): prio_d(d) for d in ds}
+        def canon_t(t):
+            if isinstance(t, Tree):
+                return ['T', str(t.data), [canon_t(c) for c in t.children]]
+            return ['t', t.type, str(t), t.start_pos, t.end_pos]
+        has_empty = any(len(r.expansion) == 0 for r in base.rules)
+        for mode in ('normal', 'invert'):
+            try:
+                with guarded(6):
+                    t = Lark(g, parser='earley', lexer=lexer, ambiguity='resolve', priority=mode).parse(text)
+            except (UnexpectedInput, Timeout):
+                continue
+            out['checked'] += 1
+            key = json.dumps(canon_t(t))
+            if key not in table:
+                out['fails'].append({'lexer': lexer, 'priority': mode, 'text': text, 'why': 'the resolved tree is not a derivation of the character lattice', 'tree': key[:300]}); break
+            want = max(table.values()) if mode == 'normal' else min(table.values())
+            if len(table) > 1 and not has_empty and table[key] != want:
+                out['fails'].append({'lexer': lexer, 'priority': mode, 'text': text, 'why': 'total priority %d, the optimum over the %d derivations is %d' % (table[key], len(table), want), 'tree': key[:300],
+                                     'all_priorities': sorted(table.values())}); break
+    return out
+
 def run(ctx, res):
     for f in ctx['known']:
         if f['id'] == 'F16' and f['status'] == 'fixed':
@@ -97,6 +196,24 @@ def run(ctx, res):
                         res.violation('the chosen derivation has total priority %d, the %s over all %d derivations is %d' % (r['priority'], 'maximum' if mode == 'normal' else 'minimum (priority=invert)', nd, want),
                                       dict(where, priority=mode, chosen=r['deriv'], all_priorities=sorted(prios)))
             # priority=None: priorities must not influence the choice: same tree as a grammar without priorities gives -- compared below via determinism run
+    # ---- terminals that may contain ignored blanks, priorities on rules and terminals: lattice-level derivations
+    from common import pmap
+    rng5 = random.Random(ctx['seed'] * 1000003 + 505)
+    seeds5 = [rng5.randrange(1 << 30) for _ in range(tier_scale(ctx['tier'], 1200, 15000) * (3 if ctx['deepen'] else 1))]
+    for seed, (st, rec) in zip(seeds5, pmap(_lattice_prio_case, seeds5, chunksize=8)):
+        if st != 'ok':
+            if st == 'exc':
+                if not exc_in_lark(rec):
+                    raise InfraError(rec)
+                res.violation('parsing with a dynamic lexer raised an unexpected exception', {'seed': seed, 'detail': rec})
+            else:
+                res.inconclusive[st] = res.inconclusive.get(st, 0) + 1
+            continue
+        if rec['checked']:
+            res.case(['lattice_prio', rec['grammar'], seed], nontrivial=True)
+            res.count('lattice_priority_parses', rec['checked'])
+        for f in rec['fails']:
+            res.violation('dynamic lexer, resolve: ' + f['why'], dict(f, grammar=rec['grammar']))
     # ---- determinism across processes and hash seeds
     nseeds = tier_scale(ctx['tier'], 3, 12)
     script = DET_SCRIPT % (str(REPO), str(VERIF / 'harness'), ctx['seed'] * 7919 + 5, tier_scale(ctx['tier'], 25, 150))
